@@ -323,6 +323,7 @@ void Dual<N>::run(V& v,
         // Prioritize picking up a local task before going to
         // the MPMC queue, to keep things in this thread for
         // as long as possible.
+        LIBFIVE_VERIF_POINT(verif::SITE_DUAL_LOOP);
         const T* t;
         if (local.size())
         {
@@ -396,8 +397,9 @@ void Dual<N>::run(V& v,
 
     // If we've broken out of the loop, then we should set the done flag
     // so that other worker threads also terminate.
-    LIBFIVE_VERIF_POINT(verif::SITE_DUAL_EXIT, settings.cancel.load() ? 1 : 0, done.load() ? 1 : 0);
+    LIBFIVE_VERIF_ONLY(const bool verif_done_seen = done.load();)
     done.store(true);
+    LIBFIVE_VERIF_POINT(verif::SITE_DUAL_EXIT, settings.cancel.load() ? 1 : 0, verif_done_seen ? 1 : 0);
 }
 
 }   // namespace libfive
